@@ -2,6 +2,7 @@ package main
 
 import (
 	"encoding/binary"
+	"encoding/json"
 	"flag"
 	"fmt"
 	"os"
@@ -125,7 +126,17 @@ func workerMain(args []string) int {
 			}
 		}
 		tape := NewTape(rs, prefix)
+		tRun := time.Now()
 		res := executeRun(c, *phase, i, tape, *world, wo.Stats, false)
+		if os.Getenv("VORESIM_SLOWLOG") != "" && time.Since(tRun) > 2*time.Second {
+			// development aid only: wall time is logged, never fed back into the run
+			if b, err := json.Marshal(res.Desc); err == nil {
+				if len(b) > 600 {
+					b = b[len(b)-600:]
+				}
+				fmt.Fprintf(slowLog(), "SLOW run=%d %.1fs steps=%d ...%s\n", i, time.Since(tRun).Seconds(), res.Steps, b)
+			}
+		}
 		wo.Runs++
 		wo.Steps += res.Steps
 		if res.Nontrivial {
@@ -254,4 +265,12 @@ func replayMain(args []string) int {
 		return 1
 	}
 	return 0
+}
+
+func slowLog() *os.File {
+	f, err := os.OpenFile(os.Getenv("VORESIM_SLOWLOG"), os.O_CREATE|os.O_APPEND|os.O_WRONLY, 0644)
+	if err != nil {
+		return os.Stderr
+	}
+	return f
 }
